@@ -149,6 +149,18 @@ async def extra(dis):
                 rs = sdrain(lambda: itertools.accumulate(xs2, initial=init))
                 if ra != rs:
                     dis.append(("accumulate_falsy_initial", init, xs2, mode, ra, rs))
+    # tee(): number of iterators / error class for small n
+    for k in (-2, -1, 0, 1, 2, 3):
+        try:
+            ra = ("OK", len(ai.tee([1, 2], k)))
+        except Exception as e:  # noqa: BLE001
+            ra = ("EXC", type(e).__name__)
+        try:
+            rs = ("OK", len(itertools.tee([1, 2], k)))
+        except Exception as e:  # noqa: BLE001
+            rs = ("EXC", type(e).__name__)
+        if ra != rs:
+            dis.append(("tee_count", (k,), [1, 2], "sync", ra, rs))
     # tee: all interleavings of two consumers
     for n in range(0, 4):
         xs = list(range(n))
